@@ -910,16 +910,29 @@ make_invalid(const curve_t *c, int cls, const unsigned char *valid, unsigned cha
 	case 17: *name = "swapped-xy"; memcpy(out + 1, valid + 1 + pl, pl); memcpy(out + 1 + pl, valid + 1, pl); break;
 	case 18: *name = "twist"; gmp_point(c, out, 0); break;
 	case 19: {
-		/* x = p (congruent to 0) with y = sqrt(b): on the curve modulo p,
-		 * but not a canonical encoding */
-		mpz_t y;
+		/* x = p + x' with x' small and (x', y) on the curve: a point of the
+		 * curve modulo p, but not a canonical encoding.  x' = 0 half of the time */
+		mpz_t x, r, y;
+		int k;
+		mpz_inits(x, r, y, NULL);
 		*name = "x-equals-p";
-		if (mpz_legendre(c->zb, c->zp) != 1) return (size_t)-1;
-		mpz_init(y);
-		mpz_powm(y, c->zb, c->zsq, c->zp);
-		BN_bn2binpad(c->p, out + 1, (int)pl);
+		mpz_set_ui(x, 0);
+		if (vf_u32(&rng) & 1) { mpz_set_ui(x, vf_u32(&rng)); *name = "x-plus-p-small"; }
+		for (k = 0; k < 200; k ++) {
+			mpz_powm_ui(r, x, 3, c->zp);
+			mpz_submul_ui(r, x, 3);
+			mpz_add(r, r, c->zb);
+			mpz_mod(r, r, c->zp);
+			if (mpz_legendre(r, c->zp) == 1) break;
+			mpz_add_ui(x, x, 1);
+			*name = "x-plus-p-small";
+		}
+		if (k == 200) { mpz_clears(x, r, y, NULL); return (size_t)-1; }
+		mpz_powm(y, r, c->zsq, c->zp);
+		mpz_add(x, x, c->zp);
+		mpz2pad(out + 1, pl, x);
 		mpz2pad(out + 1 + pl, pl, y);
-		mpz_clear(y);
+		mpz_clears(x, r, y, NULL);
 		break;
 	}
 	case 20: *name = "y-negated-plus1";
@@ -1920,12 +1933,16 @@ ecdsa_case(ecdsa_env *E, long long idx, int nverify, int nmut)
 			next_verifier(E, &im, &ev, -1);
 			BN_copy(r2, r); BN_copy(s2, s); memcpy(hv2, hv, hl); hl2 = hl;
 			if (icls == 19) {
-				/* x = p: an implementation that reduces coordinates sees the point
+				/* x = p + x': an implementation that reduces coordinates sees the point
 				 * (0, sqrt(b)); give it a signature that verifies under that point */
 				unsigned char wb[140];
 				EC_POINT *W;
+				BIGNUM *xx = BN_new();
 				memcpy(wb, bad, c->ptlen);
-				memset(wb + 1, 0, c->plen);
+				BN_bin2bn(bad + 1, (int)c->plen, xx);
+				BN_sub(xx, xx, c->p);
+				BN_bn2binpad(xx, wb + 1, (int)c->plen);
+				BN_free(xx);
 				W = pt_decode(c, wb, c->ptlen);
 				HASSERT(W != NULL, "x0-point");
 				if (forge_for_point(c, W, r2, s2, hv2, &hl2)) {
